@@ -262,6 +262,10 @@ func genC05(c *ctx) {
 	}
 	// any number of attenuation steps by holders working only from the encoded token: a chain well past every internal
 	// size hint (the decoder pre-sizes for at most 64 caveats)
+	if f := f8Oracle(); f != "" {
+		b := newBuilder(c.r.Fork())
+		b.emit(st, "honest/negative-google-user-id", true, f)
+	}
 	if f := longChainOracle(c.r.Fork()); f != "" {
 		b := newBuilder(c.r.Fork())
 		b.emit(st, "honest/long-chain", true, f)
